@@ -251,8 +251,10 @@ class MultiLevelTransform(CompositeTransform):
                 return identity.unsqueeze(0)
             transform = transforms[0]
             mat = as_homogeneous_matrix(transform.tensor())
+            eye = torch.eye(self.ndim, self.ndim + 1, dtype=mat.dtype, device=mat.device)
             for transform in transforms[1:]:
-                mat += as_homogeneous_matrix(transform.tensor())
+                # sum of displacements: x + (A1 x + t1 - x) + (A2 x + t2 - x) = (A1 + A2 - I) x + t1 + t2
+                mat = mat + as_homogeneous_matrix(transform.tensor()) - eye
             return mat
         return self.disp()
 
